@@ -7,7 +7,7 @@ import random
 import sys
 
 sys.path.insert(0, os.path.join(os.path.dirname(os.path.abspath(__file__)), ".."))
-from core import A, run_impl  # noqa: E402
+from core import A, PERF, run_impl  # noqa: E402
 from framework import Run  # noqa: E402
 from gen_prog import Cfg, Gen, MacroGen  # noqa: E402
 from lang import P_c, P_i, print_prog  # noqa: E402
@@ -163,6 +163,48 @@ def injected_invalid(r: random.Random) -> tuple[str, str, list] | None:
     return cls, print_prog(p), p
 
 
+def injected_macro_invalid(r: random.Random) -> tuple[str, str, list, list] | None:
+    """a random valid program with macros and one macro call that can not be expanded: class, text, AST, trap set"""
+    import copy
+    p = copy.deepcopy(MacroGen(r, Cfg(max_depth=2, max_block=3, max_routines=2, terminator_prob=0.5)).macro_program(1)["flat"])
+    macros = p[1]
+    bodies = [rt[6] for rt in p[2] if not rt[5]]
+    if not bodies or not macros:
+        return None
+    pts: list = []
+    for b in bodies:
+        insertion_points(b, False, False, pts)
+    if not pts:
+        return None
+    where = r.choice(pts)[0]
+    arg = lambda: [A("i"), r.randint(0, 9)]  # noqa: E731
+    call = lambda m, n=None: [A("macrocall"), m[1], *[arg() for _ in range(len(m[2]) if n is None else n)]]  # noqa: E731
+    cls = r.choice(["unknown-macro", "too-few-macro-arguments", "recursive-macro", "macro-cycle"])
+    trap: list = []
+    if cls == "unknown-macro":
+        where.insert(r.randint(0, len(where)), [A("macrocall"), "no_such_macro", *[arg() for _ in range(r.randint(0, 2))]])
+    elif cls == "too-few-macro-arguments":
+        cand = [m for m in macros if len(m[2]) >= 1]
+        if not cand:
+            return None
+        m = r.choice(cand)
+        where.insert(r.randint(0, len(where)), call(m, r.randrange(len(m[2]))))
+    else:
+        k = 1 if cls == "recursive-macro" else r.randint(2, min(3, len(macros)) if len(macros) >= 2 else 2)
+        if len(macros) < k:
+            return None
+        cyc = r.sample(macros, k)
+        for i, m in enumerate(cyc):
+            # the call to the next member sits somewhere in the body, possibly nested
+            mpts: list = []
+            insertion_points(m[3], False, False, mpts)
+            tgt = r.choice(mpts)[0] if mpts else m[3]
+            tgt.insert(r.randint(0, len(tgt)), call(cyc[(i + 1) % k]))
+        where.insert(r.randint(0, len(where)), call(cyc[0]))
+        trap = [m[1] for m in cyc]
+    return cls, print_prog(p), p, trap
+
+
 def import_cycles(r: random.Random, n: int) -> list[dict]:
     """main -> f1 -> .. -> fk -> fj: cycles of every length, entered at any depth, files in several directories"""
     main = "def 0 {\n    a();\n    end;\n}\n"
@@ -258,6 +300,8 @@ def corrupt(r: random.Random, src: str) -> str:
 def main() -> None:
     run = Run("C10", "exploration")
     run.forbid()
+    run.require_vo(["Lang/Static.v", "Lang/StaticProofs.v", "Lang/MacroStatic.v", "Lang/MacroStaticProofs.v"])
+    run.props("Props/C10.v")
     q = run.tier == "quick"
     r = random.Random(f"C10-{run.seed}")
     # 1. statically invalid programs must be rejected with a documented error
@@ -294,6 +338,40 @@ def main() -> None:
     if kfirst is not None:
         run.correspondence_broken("K-static (Lang/SrcSem.v static checks)", f"the specification model accepts an injected {kfirst[0]}",
                                   {"source": kfirst[1], "model": kfirst[2]})
+    # the independent syntactic predicate of Lang/Static.v (theorem: a meaning only if well scoped) classifies every
+    # injected construct as meaningless
+    stat = run_driver([[A("static"), PERF, a, []] for _, _, a in inj_asts])
+    sfirst = None
+    for (cls, txt, _), sp in zip(inj_asts, stat):
+        good = sp.get("r") == "ok" and sp.get("scoped") is False and sp.get("meaning") is False
+        run.count("K-static (well_scoped rejects injected construct):" + ("ok" if good else "DIFF"))
+        if not good and sfirst is None:
+            sfirst = (cls, txt, sp)
+    if sfirst is not None:
+        run.correspondence_broken("K-static (Lang/Static.v well_scoped)", f"well_scoped does not reject an injected {sfirst[0]}",
+                                  {"source": sfirst[1], "model": sfirst[2]})
+    # macro calls that can not be expanded: the compiler rejects them, and the predicates of Lang/MacroStatic.v (theorems:
+    # inline fails) hold of them
+    minj = [x for x in (injected_macro_invalid(random.Random(f"C10-minject-{run.seed}-{i}")) for i in range(200 if q else 3000)) if x]
+    mres = run_impl([("compile", x[1]) for x in minj])
+    mstat = run_driver([[A("static"), PERF, x[2], x[3]] for x in minj])
+    FLAG = {"unknown-macro": "unknown", "too-few-macro-arguments": "few", "recursive-macro": "trap", "macro-cycle": "trap"}
+    mfirst = None
+    for (cls, txt, ast, trap), o, sp in zip(minj, mres, mstat):
+        run.case(["static", cls, txt], nontrivial=True)
+        if o["ok"]:
+            run.fail("accepted:" + cls, f"statically meaningless program ({cls}) is accepted and yields output", {"source": txt, "ops": o["ops"]})
+        elif o["err"] not in DOCUMENTED:
+            run.fail("undocumented:" + cls + ":" + o["err"], f"statically meaningless program ({cls}) raises {o['err']}", {"source": txt, "observed": o})
+        run.count("static:" + ("rejected" if not o["ok"] else "ACCEPTED"))
+        good = sp.get("r") == "ok" and sp.get(FLAG[cls]) is True and sp.get("inline") != "ok" and \
+            (cls != "recursive-macro" or sp.get("self_recursive") is True)
+        run.count(f"K-static ({cls}: predicate holds, inline fails):" + ("ok" if good else "DIFF"))
+        if not good and mfirst is None:
+            mfirst = (cls, txt, sp)
+    if mfirst is not None:
+        run.correspondence_broken("K-static (Lang/MacroStatic.v)", f"the predicate for {mfirst[0]} does not hold of an injected one, or inline accepts it",
+                                  {"source": mfirst[1], "model": mfirst[2]})
     imps = import_invalid() + import_cycles(r, 12 if q else 120)
     ires = run_impl([("files:compile_files", i["files"], "m/main.exps", i["lps"]) for i in imps])
     for i, o in zip(imps, ires):
